@@ -28,6 +28,46 @@ impl Rng {
     }
 }
 
+thread_local! {
+    /// the case a driver is working on: printed by the panic hook, so that a panic or abort inside the library (C03)
+    /// comes with the input that caused it
+    static CURRENT: RefCell<String> = RefCell::new(String::new());
+}
+pub fn note(s: &str) {
+    CURRENT.with(|c| {
+        let mut c = c.borrow_mut();
+        c.clear();
+        c.push_str(s);
+    });
+}
+pub fn note_bytes(prefix: &str, b: &[u8]) {
+    CURRENT.with(|c| {
+        let mut c = c.borrow_mut();
+        c.clear();
+        c.push_str(prefix);
+        for &x in b {
+            let _ = write!(c, "\\x{:02x}", x);
+        }
+    });
+}
+
+/// every `&str` a driver takes from the library goes through here BEFORE it is compared, copied or formatted: text that
+/// is not well-formed UTF-8 is reported as such (C02) instead of being iterated (which is undefined behaviour)
+pub fn lib_str(s: &str) -> &str {
+    if std::str::from_utf8(s.as_bytes()).is_err() {
+        let cur = CURRENT.with(|c| c.borrow().clone());
+        let driver = std::env::args().nth(1).unwrap_or_default();
+        println!(
+            "{{\"driver\": {}, \"found\": true, \"input\": {}, \"expected\": \"well-formed UTF-8 in every string the library hands out\", \"actual\": {}}}",
+            j(&driver),
+            j(&cur),
+            j(&format!("ill-formed UTF-8 {}", esc(s.as_bytes())))
+        );
+        std::process::exit(0);
+    }
+    s
+}
+
 pub struct Cex {
     pub input: String,
     pub expected: String,
@@ -222,6 +262,7 @@ mod decoder {
     }
 
     pub fn check(bytes: &[u8]) -> Option<Cex> {
+        crate::note_bytes("", bytes);
         let mut r = Ref::default();
         let exp: Vec<Ev> = bytes.iter().filter_map(|&b| r.step(b)).collect();
         match real_events(bytes) {
@@ -261,6 +302,34 @@ mod decoder {
         }
         None
     }
+
+    /// C17, typing: every scalar value >= U+0020 other than DEL, in a stream where it stands next to characters of
+    /// every encoded length on both sides, must come out of the decoder as exactly one Char event carrying its encoding
+    pub fn run_scalars() -> Option<Cex> {
+        let neighbours = ['a', '\u{e9}', '\u{20ac}', '\u{1f600}'];
+        for cp in 0x20u32..=0x10FFFF {
+            let c = match char::from_u32(cp) {
+                Some(c) if cp != 0x7F => c,
+                _ => continue,
+            };
+            let mut text = String::new();
+            for n in neighbours {
+                text.push(n);
+                text.push(c);
+            }
+            text.push('a');
+            crate::note_bytes("typed: ", text.as_bytes());
+            let exp: Vec<Ev> = text.chars().map(|ch| Ev::Char(ch.to_string().into_bytes())).collect();
+            match real_events(text.as_bytes()) {
+                Ok(act) if act == exp => {}
+                Ok(act) => {
+                    return Some(Cex { input: format!("typed U+{:04X} between neighbours: {}", cp, esc(text.as_bytes())), expected: format!("{:?}", exp), actual: format!("{:?}", act) })
+                }
+                Err(e) => return Some(Cex { input: format!("typed U+{:04X} between neighbours: {}", cp, esc(text.as_bytes())), expected: format!("{:?}", exp), actual: e }),
+            }
+        }
+        None
+    }
 }
 
 // ------------------------------------------------------------------------------------------------ utils
@@ -280,6 +349,7 @@ mod utils_driver {
     }
 
     pub fn check_one(s: &str) -> Option<Cex> {
+        crate::note(&format!("utils functions on {:?}", s));
         let exp = s.chars().count();
         let act = utils::char_count(s);
         if act != exp {
@@ -306,6 +376,7 @@ mod utils_driver {
     }
 
     pub fn check_pair(a: &str, b: &str) -> Option<Cex> {
+        crate::note(&format!("common_prefix_len({:?}, {:?})", a, b));
         let e = lcp(a, b);
         let r = utils::common_prefix_len(a, b);
         if r != e {
@@ -477,9 +548,9 @@ pub mod token_driver {
         args.args()
             .map(|a| match a {
                 Arg::DoubleDash => Item::DoubleDash,
-                Arg::LongOption(n) => Item::Long(n.to_string()),
+                Arg::LongOption(n) => Item::Long(crate::lib_str(n).to_string()),
                 Arg::ShortOption(c) => Item::Short(c),
-                Arg::Value(v) => Item::Value(v.to_string()),
+                Arg::Value(v) => Item::Value(crate::lib_str(v).to_string()),
             })
             .collect()
     }
@@ -518,6 +589,7 @@ pub mod token_driver {
     }
 
     pub fn check(line: &str) -> Option<Cex> {
+        crate::note(&format!("Tokens::new({:?}) and the arguments / help request of the line", line));
         let exp = tokenize(line.as_bytes());
         let mut owned = line.to_string();
         let tokens = Tokens::new(owned.as_mut_str());
@@ -534,7 +606,7 @@ pub mod token_driver {
         // arguments and help classification over the same tokens
         if let Some(cmd) = RawCommand::from_tokens(&tokens) {
             if cmd.name().as_bytes() != &exp[0][..] {
-                return Some(Cex { input: format!("RawCommand::from_tokens({:?})", line), expected: esc(&exp[0]), actual: cmd.name().to_string() });
+                return Some(Cex { input: format!("RawCommand::from_tokens({:?})", line), expected: esc(&exp[0]), actual: crate::lib_str(cmd.name()).to_string() });
             }
             let e = classify(&exp[1..]);
             let a = real_items(&cmd.args());
@@ -546,7 +618,7 @@ pub mod token_driver {
                 let a = match HelpRequest::from_command(&cmd) {
                     None => None,
                     Some(HelpRequest::All) => Some(None),
-                    Some(HelpRequest::Command(c)) => Some(Some((c.name().to_string(), real_items(&c.args())))),
+                    Some(HelpRequest::Command(c)) => Some(Some((crate::lib_str(c.name()).to_string(), real_items(&c.args())))),
                 };
                 if a != w {
                     return Some(Cex { input: format!("HelpRequest::from_command({:?})", line), expected: format!("{:?}", w), actual: format!("{:?}", a) });
@@ -590,7 +662,7 @@ pub mod token_driver {
             let list: Vec<String> = (0..r.below(4)).map(|_| rand_string(r, &['a', ' ', '"', '\\', 'é', '-'], 4)).collect();
             let rendered = render(&list);
             let mut owned = rendered.clone();
-            let act: Vec<String> = Tokens::new(owned.as_mut_str()).iter().map(|t| t.to_string()).collect();
+            let act: Vec<String> = Tokens::new(owned.as_mut_str()).iter().map(|t| crate::lib_str(t).to_string()).collect();
             if act != list {
                 return Some(Cex { input: format!("Tokens::new({:?})", rendered), expected: format!("{:?}", list), actual: format!("{:?}", act) });
             }
@@ -612,14 +684,16 @@ mod editor_driver {
             let mut line: Vec<char> = Vec::new();
             let mut cur = 0usize;
             let mut trace = format!("cap={}", cap);
+            crate::note(&trace);
             for _ in 0..r.below(24) {
                 let op = r.below(6);
                 match op {
                     0 | 1 => {
                         let t = rand_string(r, CHARS, if op == 0 { 1 } else { 3 });
                         write!(trace, " insert({:?})", t).unwrap();
+                        crate::note(&trace);
                         let fits = line.iter().map(|c| c.len_utf8()).sum::<usize>() + t.len() <= cap;
-                        let res = ed.insert(&t).map(|s| s.to_string());
+                        let res = ed.insert(&t).map(|s| crate::lib_str(s).to_string());
                         if res.is_some() != fits {
                             return Some(Cex { input: trace, expected: format!("accepted={}", fits), actual: format!("{:?}", res) });
                         }
@@ -632,6 +706,7 @@ mod editor_driver {
                     }
                     2 => {
                         trace += " left";
+                        crate::note(&trace);
                         let e = cur > 0;
                         if e {
                             cur -= 1
@@ -642,6 +717,7 @@ mod editor_driver {
                     }
                     3 => {
                         trace += " right";
+                        crate::note(&trace);
                         let e = cur < line.len();
                         if e {
                             cur += 1
@@ -652,6 +728,7 @@ mod editor_driver {
                     }
                     4 => {
                         trace += " remove";
+                        crate::note(&trace);
                         if cur < line.len() {
                             line.remove(cur);
                         }
@@ -660,6 +737,7 @@ mod editor_driver {
                     _ => {
                         if r.below(8) == 0 {
                             trace += " clear";
+                            crate::note(&trace);
                             line.clear();
                             cur = 0;
                             ed.clear();
@@ -667,6 +745,7 @@ mod editor_driver {
                     }
                 }
                 let exp: String = line.iter().collect();
+                crate::lib_str(ed.text());
                 if ed.text() != exp || ed.cursor() != cur || ed.len() != line.len() {
                     return Some(Cex {
                         input: trace,
@@ -739,26 +818,30 @@ pub mod history_driver {
             let mut h = History::new(&mut buf[..]);
             let mut m = Model { cap, ..Default::default() };
             let mut trace = format!("cap={}", cap);
+            crate::note(&trace);
             for _ in 0..r.below(20) {
                 match r.below(4) {
                     0 | 1 => {
                         let w = words[r.below(words.len())];
                         write!(trace, " push({:?})", w).unwrap();
+                        crate::note(&trace);
                         h.push(w);
                         m.push(w);
                     }
                     2 => {
                         trace += " older";
+                        crate::note(&trace);
                         let e = m.older();
-                        let a = h.next_older().map(|s| s.to_string());
+                        let a = h.next_older().map(|s| crate::lib_str(s).to_string());
                         if a != e {
                             return Some(Cex { input: trace, expected: format!("{:?}", e), actual: format!("{:?}", a) });
                         }
                     }
                     _ => {
                         trace += " newer";
+                        crate::note(&trace);
                         let e = m.newer();
-                        let a = h.next_newer().map(|s| s.to_string());
+                        let a = h.next_newer().map(|s| crate::lib_str(s).to_string());
                         if a != e {
                             return Some(Cex { input: trace, expected: format!("{:?}", e), actual: format!("{:?}", a) });
                         }
@@ -776,7 +859,7 @@ pub mod history_driver {
             }
             let mut act = Vec::new();
             while let Some(e) = h.next_older() {
-                act.push(e.to_string());
+                act.push(crate::lib_str(e).to_string());
                 if act.len() > 64 {
                     break;
                 }
@@ -811,6 +894,7 @@ mod ac_driver {
             let n = 1 + r.below(3);
             let stem = rand_string(r, &alpha, 3);
             let cands: Vec<String> = (0..n).map(|_| if r.below(3) == 0 { rand_string(r, &alpha, 5) } else { stem.clone() + &rand_string(r, &alpha, 3) }).collect();
+            crate::note(&format!("room={} merge{:?}", room, cands));
             let mut buf = vec![0u8; room];
             let mut a = Autocompletion::new(&mut buf[..]);
             for c in &cands {
@@ -887,11 +971,13 @@ pub mod writer_driver {
                     let t = rand_string(r, &alpha, 4);
                     if r.below(3) == 0 {
                         write!(trace, " writeln_str({:?})", t).unwrap();
+                        crate::note(&trace);
                         w.writeln_str(&t).unwrap();
                         exp.extend(lf_to_crlf(&t));
                         exp.extend(b"\r\n");
                     } else {
                         write!(trace, " write_str({:?})", t).unwrap();
+                        crate::note(&trace);
                         w.write_str(&t).unwrap();
                         exp.extend(lf_to_crlf(&t));
                     }
@@ -910,7 +996,37 @@ pub mod writer_driver {
     }
 }
 
+fn j(s: &str) -> String {
+    let mut o = String::from("\"");
+    for c in s.chars() {
+        match c {
+            '"' => o.push_str("\\\""),
+            '\\' => o.push_str("\\\\"),
+            c if (c as u32) < 0x20 => write!(o, "\\u{:04x}", c as u32).unwrap(),
+            c => o.push(c),
+        }
+    }
+    o.push('"');
+    o
+}
+
 fn main() {
+    {
+        let driver = std::env::args().nth(1).unwrap_or_default();
+        std::panic::set_hook(Box::new(move |info| {
+            let loc = info.location().map(|l| format!("{}:{}", l.file(), l.line())).unwrap_or_default();
+            let msg = info.payload().downcast_ref::<&str>().map(|s| s.to_string()).or_else(|| info.payload().downcast_ref::<String>().cloned()).unwrap_or_default();
+            let cur = CURRENT.with(|c| c.try_borrow().map(|c| c.clone()).unwrap_or_default());
+            println!(
+                "{{\"driver\": {}, \"found\": true, \"input\": {}, \"expected\": \"no panic\", \"actual\": {}, \"location\": {}}}",
+                j(&driver),
+                j(&cur),
+                j(&format!("panicked at {}: {}", loc, msg)),
+                j(&loc)
+            );
+            eprintln!("panicked at {}: {}", loc, msg);
+        }));
+    }
     let args: Vec<String> = std::env::args().collect();
     let driver = args.get(1).map(|s| s.as_str()).unwrap_or("");
     let seed: u64 = args.get(2).and_then(|s| s.parse().ok()).unwrap_or(1);
@@ -918,6 +1034,7 @@ fn main() {
     let mut r = Rng(seed.wrapping_mul(0x9E3779B97F4A7C15) | 1);
     let res = match driver {
         "decoder" => decoder::run(&mut r, iters),
+        "scalars" => decoder::run_scalars(),
         "utils" => utils_driver::run(&mut r, iters),
         "token" => token_driver::run(&mut r, iters),
         "editor" => editor_driver::run(&mut r, iters),
@@ -938,19 +1055,6 @@ fn main() {
             std::process::exit(2);
         }
     };
-    fn j(s: &str) -> String {
-        let mut o = String::from("\"");
-        for c in s.chars() {
-            match c {
-                '"' => o.push_str("\\\""),
-                '\\' => o.push_str("\\\\"),
-                c if (c as u32) < 0x20 => write!(o, "\\u{:04x}", c as u32).unwrap(),
-                c => o.push(c),
-            }
-        }
-        o.push('"');
-        o
-    }
     match res {
         None => println!("{{\"driver\": {}, \"found\": false}}", j(driver)),
         Some(c) => println!(
